@@ -62,6 +62,10 @@ CHECKS = {
    technique="argv-accounting oracle: grammar-generated argument vectors joined with the harness's own POSIX quoting, interpreted independently, compared with flags.Parse's result",
    text="For each generated argv the harness itself decides 'must be rejected' (mixed delete/watch/syscall flags, both or neither of -a/-A, positional words, repeated -w/-a/-A, malformed -a/-p/-F/-C arguments, unknown flags, missing arguments) or computes the exact rule a faithful parse returns (every admissible reading of a filter's operator is accepted). A returned rule must equal it; an error is always acceptable. The repo's 112 real rule lines must be accepted faithfully.",
    note="Trusted base: the harness's argv interpreter and quoting. Blanks around list items/filter parts are compared trimmed."),
+ "C20": dict(engine="tables", cat="exploration", ref="§5 C20",
+   technique="exhaustive run-time enumeration of every table entry with inverse / uniqueness / cross-table consistency assertions (verif export hook for the rule tables, independent YAML node walk, UAPI and x/sys spot tables)",
+   text="All 65536 record type codes, both errno maps, every arch name/code, every (arch, syscall) entry (also through a built rule), every rule field/operator/comparison entry against linux/audit.h, and every entry of normalizations.yaml are enumerated completely and asserted mutually inverse and consistent; categorisation and normalisation selection are re-evaluated repeatedly and concurrently. The space is finite, so the run is exhaustive (exhaustive: true). Found two misspelt record types and four non-syscall names in the YAML (repaired in /repo).",
+   note="Trusted base: the exported maps/functions and the export hook show what the build contains; internal/uapi and x/sys/unix as independent references."),
 }
 
 NOT_YET = {
@@ -104,6 +108,8 @@ def main():
              "kind_free_text": "real-record corpus, hostile mutators, kernel-style record writer"},
             {"name": "rulegen", "path": "/verif/harness/internal/rulegen", "serves_properties": ["C06","C07","C13","C14","C20"],
              "kind_free_text": "rule request generator (text + Rule structs), independent UAPI wire decoder; constants in internal/uapi"},
+            {"name": "tables", "path": "/verif/harness/internal/checks/c20.go", "serves_properties": ["C20"],
+             "kind_free_text": "exhaustive table enumerator"},
             {"name": "reasm", "path": "/verif/harness/internal/reasm", "serves_properties": ["C01","C02","C03","C10","C19"],
              "kind_free_text": "history generator + recording Stream + trace oracles over the real Reassembler"},
         ],
